@@ -21,6 +21,7 @@ var registry = []*HarnessSpec{
 	{Prop: "C14", Name: "zzH13b", Pkg: pkgSystem, Tier: "quick", Params: map[string]int{"messages": 2}, Bounds: "address flags source (shared with C13)"},
 	{Prop: "C15", Name: "zzH15b", Pkg: pkgSystem, Tier: "quick", Bounds: "2 interfaces with symbolic flags, one symbolic route message per queried interface"},
 	{Prop: "C04", Name: "zzH04c", Pkg: pkgSystem, Tier: "quick", Bounds: "sysctl file content of 0..2 arbitrary bytes or a read error; forwarding and autoconf keys; write of either value"},
+	{Prop: "C11", Name: "zzH04c", Pkg: pkgSystem, Tier: "quick", Bounds: "the kernel autoconfiguration accessors behind system.State: the getter reads this interface's autoconf sysctl (true iff \"1\\n\"), the setter writes it (0..2 arbitrary content bytes or a read error)"},
 	{Prop: "C10", Name: "zzH10f", Pkg: pkgSystem, Tier: "quick", Bounds: "interface flags symbolic (32 bits); 0..2 addresses each IPv6 (symbolic) / IPv4 / non-IPNet; listing failure"},
 	{Prop: "C17", Name: "zzH17b", Pkg: pkgCrhttp, Tier: "quick", Unwind: 200, Bounds: "debug API request for a monitoring interface plus an advertising interface with one stanza of every kind (real parser), prepared or never prepared, forwarding symbolic, State read failing or not"},
 	{Prop: "C17", Name: "zzH17c", Pkg: pkgCrhttp, Tier: "quick", Bounds: "all four (prometheus, pprof) combinations"},
@@ -36,6 +37,7 @@ var registry = []*HarnessSpec{
 	{Prop: "C07", Name: "zzH09b", Pkg: pkgCorerad, Tier: "quick", NoNative: true, Bounds: "Listen + handle over a scripted socket: a valid RS from any IPv6 source or ::, with or without the zone the socket layer attaches"},
 	{Prop: "C07", Name: "zzH06", Pkg: pkgCorerad, Tier: "quick", MonoTime: true, NoNative: true, Params: map[string]int{"events": 2, "events@thorough": 3}, Bounds: "scheduler: 2 (3) requests (all-nodes or arbitrary unicast sources, possibly repeated) at arbitrary instants: one task per solicitation, delay in [0,500ms), each closure sends to its own source"},
 	{Prop: "C09", Name: "zzH09b", Pkg: pkgCorerad, Tier: "quick", NoNative: true, Bounds: "Listen with its real goroutines over a scripted socket: one invalid message (any hop limit != 255) then one valid RS from any IPv6 source or ::, with or without zone; then cancellation"},
+	{Prop: "C18", Name: "zzH09b", Pkg: pkgCorerad, Tier: "quick", NoNative: true, Bounds: "the receive path shared by monitor and advertiser: the sender address handed to the callback has its zone stripped for any IPv6 source"},
 	{Prop: "C10", Name: "zzH10adv", Pkg: pkgCorerad, Tier: "quick", MonoTime: true, NoNative: true, Bounds: "Advertiser.Run with all its real goroutines; one fault: opaque receive error / link-state change / failing scheduled transmission; then cancellation"},
 	{Prop: "C10", Name: "zzH10e", Pkg: pkgCorerad, Tier: "quick", NoNative: true, Bounds: "Listen with its real goroutines: non-timeout net.Error, opaque read error, or failing callback"},
 	{Prop: "C06", Name: "zzH06", Pkg: pkgCorerad, Tier: "quick", MonoTime: true, NoNative: true, Params: map[string]int{"events": 2, "events@thorough": 3}, Bounds: "2 (3) requests, each all-nodes or an arbitrary unicast source, at arbitrary non-decreasing monotonic instants (ns); ideal timers (a task runs at registration + delay)"},
@@ -80,7 +82,7 @@ var registry = []*HarnessSpec{
 	{Prop: "C09", Name: "zzH09a", Pkg: pkgCorerad, Tier: "quick", Params: map[string]int{"k": 8, "k@thorough": 12}, Bounds: "0..k-1 consecutive messages with any hop limit != 255 followed by a valid one (k=8, thorough 12)"},
 	{Prop: "C10", Name: "zzH10c", Pkg: pkgCorerad, Tier: "quick", Bounds: "0..6 read timeouts followed by a message, a non-timeout net.Error or another error"},
 	{Prop: "C18", Name: "zzH18", Pkg: pkgCorerad, Tier: "quick", Bounds: "one message: RS/NS/NA or an RA with symbolic header, 0..2 prefix options (all fields symbolic, whole-second lifetimes incl. 0 and 2^32-1 s) and an unknown option; receipt instant any wall-clock ns value; sender an opaque string"},
-	{Prop: "C18", Name: "zzH18seq", Pkg: pkgCorerad, Tier: "quick", Bounds: "two messages through Monitor.monitor (real Listen and callback) from one sender with / without a zone: an RA followed by an RA / RS / NA; router and prefix lifetimes, flags symbolic"},
+	{Prop: "C18", Name: "zzH18seq", Pkg: pkgCorerad, Tier: "quick", Bounds: "two messages through Monitor.monitor (real Listen and callback) from one link-local / global / unique-local sender with / without a zone: an RA followed by an RA / RS / NA; router and prefix lifetimes, flags symbolic"},
 	{Prop: "C12", Name: "zzH12wire", Pkg: pkgCorerad, Extra: []string{pkgConfig}, Tier: "quick", Bounds: "one accepted advertising interface with the stanzas of one kind at a time (header fields; static prefix; static route; RDNSS + DNSSL; MTU + captive portal + PREF64), all durations and header fields symbolic (real parser), forwarding on/off; ndp.MarshalMessage then ndp.ParseMessage through their real bodies"},
 	{Prop: "C12", Name: "zzH12wireDep", Pkg: pkgCorerad, Extra: []string{pkgConfig}, Tier: "quick", MonoTime: true, Bounds: "one deprecated prefix or one deprecated route, lifetimes symbolic (real parser), arbitrary epoch <= now (monotonic readings)"},
 	{Prop: "C12", Name: "zzH12oracle", Pkg: pkgCorerad, Tier: "quick", Bounds: "the harnesses' definition of a lifetime on the wire against ndp's real encoder and decoder: prefix valid / preferred, route, RDNSS, DNSSL lifetime, any ns value in [0, Infinity]"},
